@@ -47,12 +47,14 @@ impl RowIdIndex {
                     final_chunks.push(chunk);
                 }
                 RawIndexChunk::Overlapping(range, overlapping_chunks) => {
-                    debug_assert_eq!(
-                        range.end() - range.start() + 1,
-                        overlapping_chunks
-                            .iter()
-                            .map(|(_, (seq, _))| seq.len() as u64)
-                            .sum::<u64>(),
+                    // The chunks need not tile the range: deleted or moved rows leave
+                    // holes, the merged chunk below records them.
+                    debug_assert!(
+                        range.end() - range.start() + 1
+                            >= overlapping_chunks
+                                .iter()
+                                .map(|(_, (seq, _))| seq.len() as u64)
+                                .sum::<u64>(),
                         "Wrong range for {:?}, chunks: {:?}",
                         range,
                         overlapping_chunks,
